@@ -287,6 +287,8 @@ func tokenizeForSemantics(content string) []semanticToken {
 		headerDone
 	)
 	header := headerNone
+	prefixStage := prefixAfterDate
+	prevEnd := -1
 
 	for {
 		tok := lexer.Next()
@@ -306,6 +308,7 @@ func tokenizeForSemantics(content string) []semanticToken {
 				directiveType = ""
 				isPayee = true
 				header = headerPrefix
+				prefixStage = prefixAfterDate
 			} else if tok.Type != parser.TokenIndent && tok.Type != parser.TokenNewline {
 				inDirective = false
 				directiveType = ""
@@ -323,7 +326,12 @@ func tokenizeForSemantics(content string) []semanticToken {
 					header = headerDescription
 				}
 			case parser.TokenDate, parser.TokenEquals, parser.TokenStatus, parser.TokenCode:
-				if header != headerPrefix {
+				// The prefix of a header is: date [=date2] [status] [(code)], in that order
+				// and the '=' attached to the date. Anything else begins the description
+				// ("2024-01-15 = 2 apples", "2024-01-15 (7) =x", "2024-01-15 * * sale").
+				if header == headerPrefix && prefixAccepts(prefixStage, tok, prevEnd) {
+					prefixStage = nextPrefixStage(tok.Type)
+				} else {
 					tok = lexer.RescanText(tok)
 					if header == headerNote {
 						header = headerDone
@@ -340,6 +348,8 @@ func tokenizeForSemantics(content string) []semanticToken {
 				}
 			}
 		}
+
+		prevEnd = tok.End.Offset
 
 		// The path of an include directive is one piece of text, whatever characters
 		// it is made of ("*.journal", "sub/2024-01.journal").
@@ -551,4 +561,42 @@ func encodeTokens(tokens []semanticToken) []uint32 {
 	}
 
 	return data
+}
+
+// Stages of a transaction header's prefix: date [=date2] [status] [(code)].
+const (
+	prefixAfterDate = iota
+	prefixAfterEquals
+	prefixAfterDate2
+	prefixAfterStatus
+	prefixAfterCode
+)
+
+// prefixAccepts reports whether tok continues the header prefix at the given stage.
+// prevEnd is the offset at which the previous token ended.
+func prefixAccepts(stage int, tok parser.Token, prevEnd int) bool {
+	switch tok.Type {
+	case parser.TokenEquals:
+		return stage == prefixAfterDate && tok.Pos.Offset == prevEnd
+	case parser.TokenDate:
+		return stage == prefixAfterEquals
+	case parser.TokenStatus:
+		return stage == prefixAfterDate || stage == prefixAfterDate2
+	case parser.TokenCode:
+		return stage == prefixAfterDate || stage == prefixAfterDate2 || stage == prefixAfterStatus
+	}
+	return false
+}
+
+func nextPrefixStage(t parser.TokenType) int {
+	switch t {
+	case parser.TokenEquals:
+		return prefixAfterEquals
+	case parser.TokenDate:
+		return prefixAfterDate2
+	case parser.TokenStatus:
+		return prefixAfterStatus
+	default:
+		return prefixAfterCode
+	}
 }
